@@ -303,6 +303,16 @@ class C15(Prop):
             mk = lambda: [[rng.randint(-3, 12), rng.choice([0, 1, 2, rng.randint(-3, 8)]) * rng.choice([1000, 1000, 1, 250])]
                           for _ in range(rng.randint(0, 6))]
             out.append(("anyints", {"u": 1000, "du": 1, "l1": mk(), "l2": mk()}))
+        # list-one / list-two events stamped in a zone that is at UTC+0 in winter, lasting across the night its clocks go forward
+        from ..common import DST_SPRING
+
+        for zone, ls in DST_SPRING:
+            for back in (600, 1800):
+                for off2 in (-900, 900, 3600, 5400):
+                    l1 = [[(ls - back) * 1000, 7200 * 1000]]
+                    l2 = [[(ls + off2) * 1000, 7200 * 1000]]
+                    out.append(("dst-zone", {"u": 1000, "l1": l1, "l2": l2, "tz": [zone, 0]}))
+                    out.append(("dst-zone", {"u": 1000, "l1": l2, "l2": l1, "tz": [0, zone]}))
         return out
 
     # ---- both sides ------------------------------------------------------------------------
